@@ -1,4 +1,4 @@
-"""Behaviour-preserving rename sweep (thorough tier): for each source file of /repo/sc3, every local variable of every
+"""Behaviour-preserving sweeps (thorough tier): every `return E` of a file becomes `t = E; return t`, and: for each source file of /repo/sc3, every local variable of every
 function is renamed (x -> x_rn) in memory and the property's rules are run on that variant.  Any finding that the
 un-renamed (only re-printed) file does not have is a false alarm of a text-bound clause, and fails the thorough run."""
 
@@ -65,6 +65,76 @@ class Renamer(ast.NodeTransformer):
         return node
 
 
+class ReturnTemp(ast.NodeTransformer):
+    """`return E` -> `rv_ = E; return rv_` for every return of every outermost function (a temporary introduced by a refactoring)"""
+
+    def __init__(self):
+        self.count = 0
+        self.depth = 0
+
+    def visit_FunctionDef(self, node):
+        self.depth += 1
+        self.generic_visit(node)
+        self.depth -= 1
+        return node
+    visit_AsyncFunctionDef = visit_FunctionDef
+
+    def visit_Lambda(self, node):
+        return node
+
+    def visit_Return(self, node):
+        if self.depth != 1 or node.value is None or isinstance(node.value, (ast.Name, ast.Constant)):
+            return node
+        self.count += 1
+        name = f'rv{self.count}_'
+        a = ast.Assign(targets=[ast.Name(id=name, ctx=ast.Store())], value=node.value)
+        r = ast.Return(value=ast.Name(id=name, ctx=ast.Load()))
+        return [ast.copy_location(a, node), ast.copy_location(r, node)]
+
+
+class Annotator(ast.NodeTransformer):
+    """adds a docstring to every function that has none, a `-> object` return annotation and `: object` parameter annotations"""
+
+    def __init__(self):
+        self.count = 0
+
+    def visit_FunctionDef(self, node):
+        self.generic_visit(node)
+        has_doc = bool(node.body) and isinstance(node.body[0], ast.Expr) and isinstance(node.body[0].value, ast.Constant) \
+            and isinstance(node.body[0].value.value, str)
+        if not has_doc:
+            node.body.insert(0, ast.Expr(value=ast.Constant(value='Documented by a later edit.')))
+            self.count += 1
+        a = node.args
+        for x in a.posonlyargs + a.args + a.kwonlyargs:
+            if x.annotation is None and x.arg not in ('self', 'cls'):
+                x.annotation = ast.Name(id='object', ctx=ast.Load())
+                self.count += 1
+        if node.returns is None and node.name != '__init__':
+            node.returns = ast.Name(id='object', ctx=ast.Load())
+        return node
+    visit_AsyncFunctionDef = visit_FunctionDef
+
+
+def annotated_variant(root, relpath):
+    with open(os.path.join(root, relpath), encoding='utf-8') as f:
+        tree = ast.parse(f.read())
+    t = Annotator()
+    t.visit(tree)
+    ast.fix_missing_locations(tree)
+    return ast.unparse(tree), t.count
+
+
+def temp_variant(root, relpath):
+    with open(os.path.join(root, relpath), encoding='utf-8') as f:
+        tree = ast.parse(f.read())
+    control = ast.unparse(tree)
+    t = ReturnTemp()
+    t.visit(tree)
+    ast.fix_missing_locations(tree)
+    return control, ast.unparse(tree), t.count
+
+
 def variants(root, relpath):
     with open(os.path.join(root, relpath), encoding='utf-8') as f:
         tree = ast.parse(f.read())
@@ -86,6 +156,20 @@ def _job(args):
     except Exception as e:   # an analysis error under a pure rename is a false alarm as well
         return relpath, 'ERROR', [repr(e)[:200]]
     new = sorted(f'{r} {k}' for r, k in got if (r, k) not in base)
+    try:
+        control, temped, nt = temp_variant(root, relpath)
+        if nt:
+            got2 = mutants._findings(pid, {relpath: temped})
+            new += sorted(f'[return-temp] {r} {k}' for r, k in got2 if (r, k) not in base)
+    except Exception as e:
+        return relpath, 'ERROR', ['[return-temp] ' + repr(e)[:200]]
+    try:
+        annotated, na = annotated_variant(root, relpath)
+        if na:
+            got3 = mutants._findings(pid, {relpath: annotated})
+            new += sorted(f'[annotations+docstrings] {r} {k}' for r, k in got3 if (r, k) not in base)
+    except Exception as e:
+        return relpath, 'ERROR', ['[annotations+docstrings] ' + repr(e)[:200]]
     return relpath, 'FALSE-ALARM' if new else 'silent-ok', new
 
 
